@@ -1475,10 +1475,35 @@ func allUniques(n parse.Node) [][][]xml.Name {
 	return uniqs
 }
 
+// The words of a key argument are node identifiers (RFC 6020 section 12:
+// key-arg = node-identifier *(sep node-identifier)): the name of a leaf of
+// the list, which may be written with the prefix of the list's own module.
+func (c *Compiler) listKeys(n parse.Node) []string {
+	keys := n.Keys()
+	out := make([]string, len(keys))
+	for i, k := range keys {
+		out[i] = k
+		j := strings.IndexByte(k, ':')
+		if j <= 0 || strings.Contains(k, "/") {
+			continue
+		}
+		mod, err := n.GetModuleByPrefix(k[:j], c.modules, c.skipUnknown)
+		if err != nil {
+			c.error(n, err)
+		}
+		if mod != n.Root() {
+			c.error(n, fmt.Errorf("key %s is not a leaf of the list", k))
+		}
+		out[i] = k[j+1:]
+	}
+	return out
+}
+
 func (c *Compiler) BuildList(features inheritedFeatures, m parse.Node, n parse.Node) schema.Node {
 	c.CheckMinMax(n, n.Min(), n.Max())
 
-	children := c.buildListChildren(n.Keys(), features, m, n.ChildrenByType(parse.NodeDataDef))
+	keys := c.listKeys(n)
+	children := c.buildListChildren(keys, features, m, n.ChildrenByType(parse.NodeDataDef))
 
 	l, err := schema.NewList(
 		n.Name(),
@@ -1492,7 +1517,7 @@ func (c *Compiler) BuildList(features inheritedFeatures, m parse.Node, n parse.N
 		n.Max(),
 		features.config,
 		features.status,
-		n.Keys(),
+		keys,
 		allUniques(n),
 		c.BuildWhens(n),
 		c.BuildMusts(n),
